@@ -219,9 +219,85 @@ theorem C16_pickle_eager_noop (cfg : Cfg) (s : State) (h : Hnd) (o : Inst) (fail
     (hl : cfg.lazyUpdate o.cls = false) : opPickle cfg s h fail = (s, .ok) := by
   simp [opPickle, ho, hl]
 
+/-- **Only the flush operations write a lazy object's pending values**: every operation other than
+    syncUpdate / sync / pickling / a `destroySelf` with a dependents loop appends no UPDATE of a lazy class
+    to the statement log (whatever the state; raw SQL does not go through the log). -/
+theorem C16_only_flush_ops_write_lazy (cfg : Cfg) (s : State) (op : Op) (hop : IsFlushOp op = false) :
+    NoLazyWrite cfg s (step cfg s op).1 := by
+  cases op with
+  | create h cls id kvs => exact nlw_create _ _ _ _ _ _
+  | fetch h cls id v => exact nlw_fetch _ _ _ _ _ _
+  | refresh h => exact nlw_refresh _ _ _
+  | selectStmt cls => exact nlw_one _ _ _ _ rfl rfl
+  | read h c => exact nlw_read _ _ _ _
+  | setattr h c inp fail => exact nlw_setattr _ _ _ _ _ _
+  | set h kvs fail => exact nlw_set _ _ _ _ _
+  | syncUpdate h fail => simp [IsFlushOp] at hop
+  | sync h fail => simp [IsFlushOp] at hop
+  | expire h =>
+    simp only [step, opExpire]; split
+    · exact nlw_refl _ _
+    · exact nlw_log_eq _ _ _ rfl
+  | expireAll => exact nlw_log_eq _ _ _ rfl
+  | expireAllCls cls => exact nlw_log_eq _ _ _ rfl
+  | destroy h refs =>
+    have : refs = [] := by cases refs <;> simp [IsFlushOp] at hop ⊢
+    subst this
+    simp only [step, opDestroyRefs, opRefSteps]
+    split
+    · exact nlw_refl _ _
+    · exact nlw_destroy _ _ _
+  | pickle h fail => simp [IsFlushOp] at hop
+  | drop h => exact nlw_log_eq _ _ _ rfl
+  | oobUpdate cls id c v => exact nlw_log_eq _ _ _ rfl
+  | oobDelete cls id => exact nlw_log_eq _ _ _ rfl
+  | oobInsert cls id vals =>
+    simp only [step]; split
+    · exact nlw_refl _ _
+    · exact nlw_log_eq _ _ _ rfl
+
+
+/-- … and the one further place: inside `destroySelf` of a row, a LAZY referrer with `cascade='null'` gets
+    `set(fkID=None)` (or `set()`) and is flushed at once — the step IS that `set` followed by `syncUpdate()`,
+    so by `C16_sync_writes_pending` it sends exactly one UPDATE with ALL pending values of that referrer
+    (the NULL included) and leaves it clean; the reference is gone from the table before the DELETE. -/
+theorem C16_null_cascade_flushes_referrer (cfg : Cfg) (s : State) (T : Cls) (r : Id) (hr : Hnd)
+    (fresh : Option (Cls × Id)) (o' : Inst) (v : Val)
+    (hget : (refGet cfg s hr fresh).2 = .ok) (ho : (refGet cfg s hr fresh).1.objs hr = some o')
+    (hfk : cfg.fk o'.cls = some (T, .null)) (hlz : cfg.lazyUpdate o'.cls = true)
+    (hread : (opRead cfg (refGet cfg s hr fresh).1 hr 0).2 = .val v)
+    (hset : (opSet cfg (opRead cfg (refGet cfg s hr fresh).1 hr 0).1 hr (clearArg v r) false).2 = .ok) :
+    opRefRow cfg s T r hr fresh =
+      opSyncUpdate (opSet cfg (opRead cfg (refGet cfg s hr fresh).1 hr 0).1 hr (clearArg v r) false).1 hr false ∧
+    ((opRefRow cfg s T r hr fresh).2 = .ok →
+      ∀ o2, (opRefRow cfg s T r hr fresh).1.objs hr = some o2 → o2.pending = []) := by
+  have heq : opRefRow cfg s T r hr fresh =
+      opSyncUpdate (opSet cfg (opRead cfg (refGet cfg s hr fresh).1 hr 0).1 hr (clearArg v r) false).1 hr false := by
+    unfold opRefRow
+    simp [hget, ho, hfk, hlz, hread, hset]
+  refine ⟨heq, ?_⟩
+  rw [heq]
+  exact syncUpdate_ok_pending _ hr false
+
 /-! ## non-vacuity and regression witnesses -/
 
-def exCfg16 : Cfg := { lazyUpdate := fun c => c == 1, cacheValues := fun _ => true, ncols := fun _ => 3, fk := fun _ => none, doCache := true }
+def exFk16 : Cls → Option (Cls × FkKind)
+  | 1 => some (0, FkKind.null)
+  | _ => none
+
+/-- class 0 eager; class 1 lazy with `ForeignKey(class 0, cascade='null')` in column 0 -/
+def exCfg16 : Cfg :=
+  { lazyUpdate := fun c => c == 1, cacheValues := fun _ => true, ncols := fun _ => 3, fk := exFk16, doCache := true }
+
+/-- destroying the referenced row flushes the lazy referrer: ONE UPDATE holding its pending y AND the NULL,
+    before the DELETE; afterwards the referrer is clean and its row holds NULL -/
+example :
+    let s := run exCfg16 init
+      [.create 0 0 1 [(0, .ok (some 7))], .create 1 1 1 [(0, .ok (some 1)), (1, .ok (some 2)), (2, .ok (some 3))],
+       .setattr 1 1 (.ok (some 9)) false, .destroy 0 [.sel 1, .row 1 none]]
+    s.log.drop 4 = [.selectRefs 1 0 1, .update 1 1 [(0, none), (1, some 9)], .delete 0 1] ∧
+    (s.objs 1).map (fun o => (o.dirty, o.pending)) = some (false, []) ∧ (s.db 1 1).map (· 0) = some none := by
+  decide
 
 /-- three assignments (x twice), then sync(): exactly one UPDATE with x = the later value, y; z untouched -/
 example : (run exCfg16 init
